@@ -90,6 +90,9 @@ func main() {
 			for j := 0; j < m; j++ {
 				ins = append(ins, mk(n+j*7+rng.Intn(3)))
 			}
+			if ins[0].Source == "crl_files" {
+				ins[0].Source = "crl_urls"
+			}
 			sets = append(sets, setSpec{ID: len(sets), Interval: iv, Instances: ins})
 			n += m
 		}
@@ -184,7 +187,18 @@ func runSet(run *report.Run, s setSpec, scratch string) {
 			if is.Signer == "resolvable" {
 				opts.Trusted = []*x509.Certificate{w.Int.Cert}
 			}
-			w.CRL.Set(st.path, origin.Good(v0))
+			// in multi-instance sets the first instance has a slow origin (0.4 I per fetch), so that the
+			// ticks of the others fall into its update pass
+			slow := time.Duration(0)
+			if j == 0 && len(s.Instances) > 1 {
+				slow = I * 2 / 5
+			}
+			serve := func(body []byte) origin.Behaviour {
+				b := origin.Good(body)
+				b.Delay = slow
+				return b
+			}
+			w.CRL.Set(st.path, serve(v0))
 			switch is.Source {
 			case "crl_urls":
 				opts.CRLUrls = []string{url}
@@ -235,7 +249,7 @@ func runSet(run *report.Run, s setSpec, scratch string) {
 				}
 				time.Sleep(time.Duration(is.FailK) * I)
 			}
-			w.CRL.Set(st.path, origin.Good(v1))
+			w.CRL.Set(st.path, serve(v1))
 			if st.file != "" {
 				_ = os.WriteFile(st.file+".tmp", v1, 0644)
 				_ = os.Rename(st.file+".tmp", st.file)
